@@ -389,7 +389,8 @@ def _native_jobs(prop, repo, outdir, thorough=False):
         for b in REPLAY_BINS.get(prop, []):
             name, extra = b[0], b[1]
             pargs = b[2] if len(b) > 2 else []
-            cmd = ["cargo", "run"] + prof + ["--offline", "--quiet", "--target-dir", tdir, "--bin", name] + extra + (["--"] + pargs if pargs else [])
+            # the two profiles get target directories of their own: no rebuild when they alternate, and they can run side by side
+            cmd = ["cargo", "run"] + prof + ["--offline", "--quiet", "--target-dir", tdir + ("_nodebug" if prof else ""), "--bin", name] + extra + (["--"] + pargs if pargs else [])
             exh = "--exhaustive" in pargs
             if exh and prof:
                 continue  # the exhaustive enumeration is deterministic: once, in the dev profile
@@ -465,14 +466,25 @@ def bounded_exploration(prop, repo, outdir, seeds):
 
 
 def replay_search(prop, oid, v, repo, outdir):
-    """Best-effort search for a concrete failing input on the REAL crate (never decides a property)."""
-    for label, cwd, cmd, secondary, jenv in _native_jobs(prop, repo, outdir):
+    """Best-effort search for a concrete failing input on the REAL crate (never decides a property). The jobs are independent
+    processes: up to four run side by side; the answer is the first job IN JOB ORDER that exhibits a violation."""
+    import concurrent.futures as _cf
+    jobs = _native_jobs(prop, repo, outdir)
+
+    def one(job):
+        label, cwd, cmd, secondary, jenv = job
         try:
-            r = subprocess.run(cmd, cwd=cwd, env=dict(ENV, **jenv), capture_output=True, text=True, timeout=900)
+            r = subprocess.run(cmd, cwd=cwd, env=dict(ENV, **jenv), capture_output=True, text=True, timeout=1800)
         except subprocess.TimeoutExpired:
-            continue
+            return None
         out = r.stdout + r.stderr
         if r.returncode == 1 and "VIOLATION" in out:
             return {"kind": "native-replay", "cmd": "cd " + cwd + " && " + "".join(f"{k}={v} " for k, v in jenv.items()) + "CARGO_NET_OFFLINE=true " + " ".join(cmd),
                     "output": "\n".join(l for l in out.splitlines() if "VIOLATION" in l or l.startswith("OK"))[:2000]}
+        return None
+
+    with _cf.ThreadPoolExecutor(max_workers=4) as ex:
+        for res in ex.map(one, jobs):
+            if res:
+                return res
     return None
